@@ -76,6 +76,7 @@ static size_t cb_write(scpi_t *c, const char *data, size_t len) {
     w->canon += "W\"";
     w->canon += c_escape(std::string(data, len));
     w->canon += "\"\n";
+    if (w->write_hook) w->write_hook(*w);
     switch (w->cfg.wr_mode) {
         case 1: return len / 2;
         case 2: return 0;
@@ -226,6 +227,7 @@ World::~World() {
         observer = nullptr;
         srq_observer = nullptr;
         err_observer = nullptr;
+        write_hook = nullptr;
         SCPI_ErrorClear(ctx);
     }
     // the input buffer may be partially poisoned by hook H1; ASan accepts free() of it
@@ -241,14 +243,14 @@ int World::add_command(const std::string &pattern, Handler h) {
     c.pattern = patterns.back().c_str();
     c.callback = trampoline;
     c.tag = (int32_t) handlers.size();
-    table.push_back(c);
+    (filling_alt ? alt_table : table).push_back(c);
     handlers.push_back(std::move(h));
     return c.tag;
 }
 
 int World::add_null_command(const std::string &pattern) {
     int tag = add_command(pattern, nullptr);
-    table.back().callback = nullptr;
+    (filling_alt ? alt_table : table).back().callback = nullptr;
     return tag;
 }
 
@@ -284,14 +286,41 @@ void World::add_standard_commands() {
     add_lib_command("STATus:PRESet", SCPI_StatusPreset);
 }
 
+// the application's own unit table: every standard entry followed by three of its own, spelled the way the front panel shows them
+static const scpi_unit_def_t *custom_unit_table() {
+    static std::vector<scpi_unit_def_t> t;
+    if (t.empty()) {
+        for (const scpi_unit_def_t *u = scpi_units_def; u->name; u++) t.push_back(*u);
+        scpi_unit_def_t e;
+        e.name = "mVpp";
+        e.unit = SCPI_UNIT_VOLT;
+        e.mult = 1e-3;
+        t.push_back(e);
+        e.name = "Vrms";
+        e.unit = SCPI_UNIT_VOLT;
+        e.mult = 1;
+        t.push_back(e);
+        e.name = "dBc";
+        e.unit = SCPI_UNIT_DECIBEL;
+        e.mult = 1;
+        t.push_back(e);
+        e.name = nullptr;
+        e.unit = SCPI_UNIT_NONE;
+        e.mult = 0;
+        t.push_back(e);
+    }
+    return t.data();
+}
+
 void World::seal() {
     scpi_command_t end;
     end.pattern = nullptr;
     end.callback = nullptr;
     end.tag = 0;
     table.push_back(end);
+    alt_table.push_back(end);
     table_sealed = true;
-    SCPI_Init(ctx, table.data(), &iface, cfg.with_units ? scpi_units_def : nullptr, "VERIF", "SIM", nullptr, "01-02", inbuf, (size_t) cfg.inbuf,
+    SCPI_Init(ctx, table.data(), &iface, cfg.with_units ? (cfg.custom_units ? custom_unit_table() : scpi_units_def) : nullptr, "VERIF", "SIM", nullptr, "01-02", inbuf, (size_t) cfg.inbuf,
               queue, (int16_t) cfg.queue);
     ctx->user_context = this;
 #if SIM_HEAP
